@@ -189,6 +189,29 @@ pub fn compare_opt(
         None => Verdict::Agree,
         Some(_) if flagged => Verdict::Inconclusive,
         Some((class, what)) => {
+            // Is the specification itself determinate here? A regret that is zero up to rounding
+            // gives a reach probability of ~1e-17 instead of 0, and a scale-free regret matching
+            // further down the tree turns that into a macroscopic difference. The specification is
+            // run again on the same game with every payoff multiplied by 3 (mathematically the same
+            // iterates for the presets and for w scaled by 1/3; different rounding): if it
+            // disagrees with itself, the case is ill conditioned and is not judged.
+            let scaled = super::c03::scale(tree, 3.0);
+            let mut params = spec.reference();
+            if params.w.is_finite() {
+                params.w /= 3.0;
+            }
+            let mut decide = |key: &crate::refcfr::RefKey, _: &[f64]| decisions.get(key).map(|(_, c)| *c);
+            let sensitive = match ref_cfr(&scaled, method, params, iters, &mut decide) {
+                Ok(again) => {
+                    let (a, b) = (&reference.snapshots[iters as usize], &again.snapshots[iters as usize]);
+                    again.flags.any() || (0..2).any(|pl| a[pl].iter().any(|(k, v)| b[pl].get(k).map(|w| v.iter().zip(w.iter()).any(|(x, y)| (x - y).abs() > 1e-9)).unwrap_or(true)))
+                }
+                Err(_) => false,
+            };
+            if sensitive {
+                ctx.count("ill_conditioned_(the_specification_disagrees_with_itself_under_rescaled_payoffs)", 1);
+                return Verdict::Inconclusive;
+            }
             fail(&class, what);
             Verdict::Violation
         }
